@@ -8,6 +8,12 @@ E2  every transition of the cover configuration's state graph is replayed in the
 E3  ... and the recorded trace (action, thread, returned value, head/tail/seq[]/live payload per
     slot after every step) is validated by TLC against the spec (MpmcTrace.tla), all invariants on.
 E4  random controlled schedules of random programs (all capacities incl. non power of two).
+E5  free-running rounds (drv_mpmc --stress): 1..3 producers x 1..3 consumers, real threads, no controller
+    (the hook points are inert), on rings of capacity 2 / 3 (exact) / 4; one observation record per round
+    (what every pop returned per consumer in program order, the quiescent observers, payload lifetime
+    counters), validated by TLC against spec/mpmc/MpmcObs.tla: nothing lost / duplicated / invented,
+    per-producer FIFO, quiescent exactness, every element destroyed exactly once.  Sees races INSIDE a step
+    of Mpmc.tla (a CAS split into load + store, an index re-read after the claim, ...), which E2-E4 cannot.
 """
 import os
 
@@ -49,7 +55,23 @@ def run(ctx):
             ctx.validate(SPEC, 'MpmcTrace.tla', 'MpmcTrace.cfg', tr, INV_WHAT,
                          executions=tot.get('completed', 0), label='random cap%d pct%d' % (cap, pct))
     ctx.sample_trace(tr, 10)
+
+    # E5: free-running rounds (real threads, inert hooks): the windows INSIDE the steps of Mpmc.tla ------------
+    obs = os.path.join(ctx.work, 'stress.ndjson')
+    rounds = 300000 if thorough else 20000
+    tot, _ = ctx.driver(exe, ['--out', obs, '--stress', rounds, '--seed', ctx.seed,
+                              '--maxms', 240000 if thorough else 6000], INV_WHAT,
+                        label='free-running producers x consumers', allow_incomplete=True,
+                        timeout=1500 if thorough else 300)
+    ctx.validate(SPEC, 'MpmcObs.tla', 'MpmcObs.cfg', obs, INV_WHAT, executions=tot.get('executions', 0),
+                 label='free-running rounds: exactly-once, per-producer FIFO, quiescent exactness, lifetimes',
+                 timeout=3000 if thorough else 900)
+    ctx.cov['free_running_rounds'] = tot.get('executions', 0)
+    ctx.sample_trace(obs, 3)
     ctx.assumptions += [
+        'free-running rounds (E5): only per-thread program order and quiescent points (all threads returned) are used to '
+        'order operations; a round that does not finish within 10 s of wall-clock time counts as stuck (an accepted '
+        'element never reached a pop)',
         'TLA+ interleaving semantics are sequentially consistent (weak-memory effects are C10)',
         'payload operations between two schedule points are atomic w.r.t. other threads only under the controlled scheduler',
         'TLC, the JSON/IOUtils community modules and g++ are trusted',
